@@ -104,6 +104,7 @@ class Stats:
         for c in res.classes:
             self.classes[f"{part}:{c}"] += 1
         if res.nontrivial:
+            self.classes[f"{part}:NONTRIVIAL"] += 1
             h = case_hash([part, case])
             if h not in self.nontrivial:
                 self.nontrivial.add(h)
